@@ -138,6 +138,21 @@ fn main() {
             println!("stats: {}", serde_json::to_string(&res.stats).unwrap());
             println!("hash {:016x}", res.log_hash);
         }
+        Some("gen") => {
+            // print the generated case (statements only) without running it
+            let base: u64 = std::env::var("VERIF_SEED").ok().and_then(|s| s.parse().ok()).unwrap_or(1);
+            let seed = a(3).and_then(|s| match s.strip_prefix('i') {
+                Some(n) => n.parse::<u64>().ok().map(|n| rng::run_seed(base, n)),
+                None => s.parse::<u64>().ok(),
+            });
+            let (Some(id), Some(seed)) = (a(2), seed) else { usage() };
+            let case = cases::gen_case(id, seed);
+            println!("knobs {:?}", case.knobs);
+            for (i, st) in case.steps.iter().enumerate() {
+                let b = st.brief();
+                println!("[{i}] {}", &b[..b.len().min(300)]);
+            }
+        }
         Some("determinism") => {
             let (Some(id), Some(n)) = (a(2), a(3).and_then(|s| s.parse::<usize>().ok())) else {
                 usage()
